@@ -18,16 +18,22 @@ import time
 
 from hypothesis import strategies as st
 
-from vlib.core import HarnessError, bad, inconclusive, ok
+from vlib.core import HarnessError, bad, format_exc, inconclusive, ok
 
 from engines import targets_c19 as T
 
 LEVEL = 'exploration'
-RULE = ('Hypothesis cases {method, default_ctx, children[1-3] of {exit path in '
+RULE = ('part enum: one fixed one-child scenario per (start method, fatal '
+        'signal 1-64 without the 10 non-fatal/reserved ones) and per '
+        '(start method, sys.exit code) - quick: fork x 54 signals + 9 edge '
+        'codes; thorough: 3 methods x 54 signals, fork x all 256 codes, 9 edge '
+        'codes for spawn/forkserver; exhaustive when not cut.  parts fork/'
+        'spawn/forkserver: Hypothesis cases {method, default_ctx, children[1-3] of {exit path in '
         'return | raise X | sys.exit(0..255) | self-kill by any signal whose '
         'default action terminates (SIG_DFL first, cores off) | external '
         'SIGKILL / terminate(); exit delay; try-start-a-foreign-process flag}, '
-        'script[0-14] of join(k, 0|0.05|0.5|None) / exitcode / is_alive / '
+        'pre[0-4] of non-releasing steps, script[0-10] of join(k, 0|0.05|0.5|'
+        'None) / exitcode / is_alive / '
         'active_children / sleep / start-again / release / await-end (wait by '
         '/proc until the child is gone, so the next poll is after the exit '
         'and before any join) / spin (poll back-to-back across the exit)}; '
@@ -44,8 +50,12 @@ ASSUMPTIONS = [
     '(ended) are used, the window in between is not asserted on',
     'a join is counted as successful only when it was join(None) or the '
     'child had provably ended before the call',
-    'join(t) must return within t + 1.5 s (observed overrun on this box: a few '
-    'ms; a failing case must reproduce 3/3)',
+    'join(t) must return within t + 3 s (observed overrun on this 16-core '
+    'box: <5 ms normally, <50 ms at load 8, up to 0.5 s at load 40-100; a '
+    'failing case must reproduce 3/3)',
+    'quick/thorough parts carry a wall cap per shard (enum 15 s + 30/12/12 s, '
+    'enum 300 s + 420/240/240 s) that only bites on a badly oversubscribed box; a cut '
+    'part is flagged budget_cut',
     'forkserver / semaphore-tracker helper processes are shut down after '
     'every case by closing forkserver._forkserver._forkserver_alive_fd and '
     'semaphore_tracker._semaphore_tracker._fd and reaped by the harness',
@@ -55,8 +65,8 @@ ASSUMPTIONS = [
 SHARDS = {'quick': 8, 'thorough': 16}
 WALL_LIMIT = {'quick': 600, 'thorough': 3600}
 
-SLACK = 1.5        # join(t) has to be back within t + SLACK
-GUARD = 2.5        # ... a join(t) still blocked at t + GUARD gets its child killed
+SLACK = 3.0        # join(t) has to be back within t + SLACK
+GUARD = 3.5        # ... a join(t) still blocked at t + GUARD gets its child killed
 HANG_KILL = 20.0   # join(None): child killed after this long -> inconclusive
 READY_WAIT = 30.0
 
@@ -70,15 +80,17 @@ _CORE = {3, 4, 5, 6, 7, 8, 11, 24, 25, 31}
 # generator
 # ---------------------------------------------------------------------------
 
+# (the first alternative is what Hypothesis tries first in every shard, so it
+# is a signal death rather than the trivial "return")
 _EXIT = st.one_of(
+    st.sampled_from(FATAL).map(lambda s: ['sig', s]),
+    st.sampled_from(FATAL).map(lambda s: ['sig', s]),
+    st.sampled_from([1, 2, 3, 6, 9, 11, 13, 14, 15]).map(lambda s: ['sig', s]),
     st.just(['return', 0]),
     st.sampled_from(sorted(T._RAISABLE)).map(lambda n: ['raise', n]),
     st.sampled_from([0, 1, 2, 3, 42, 126, 127, 128, 129, 137, 254, 255]).map(
         lambda n: ['exit', n]),
     st.integers(0, 255).map(lambda n: ['exit', n]),
-    st.sampled_from(FATAL).map(lambda s: ['sig', s]),
-    st.sampled_from(FATAL).map(lambda s: ['sig', s]),
-    st.sampled_from([1, 2, 3, 6, 9, 11, 13, 14, 15]).map(lambda s: ['sig', s]),
     st.sampled_from([['ext', 9], ['ext', 15]]),
 )
 _CHILD = st.fixed_dictionaries({
@@ -103,13 +115,25 @@ _STEP = st.one_of(
 ).map(list)
 
 
+# steps that release nobody: what 'pre' is made of, so that polls and timed
+# joins on a child that is certainly alive are in (almost) every case
+_PRE_STEP = st.one_of(
+    st.tuples(st.just('join'), _IDX, st.sampled_from([0, 0.05, 0.05, 0.5])),
+    st.tuples(st.just('poll'), _IDX),
+    st.tuples(st.just('alive'), _IDX),
+    st.tuples(st.just('active'), st.just(0)),
+    st.tuples(st.just('start2'), _IDX),
+).map(list)
+
+
 def cases(method):
     return st.fixed_dictionaries({
         'method': st.just(method),
         'default_ctx': st.booleans(),
         'children': st.lists(_CHILD, min_size=1, max_size=3),
-        'script': st.lists(_STEP, min_size=0, max_size=14),
-        'finale': st.sampled_from(['join', 'join', 'poll', 'alive']),
+        'pre': st.lists(_PRE_STEP, min_size=0, max_size=4),
+        'script': st.lists(_STEP, min_size=0, max_size=10),
+        'finale': st.sampled_from(['poll', 'join', 'join', 'alive']),
     })
 
 
@@ -287,11 +311,39 @@ def _cleanup(kids, conns, timers, env_before, labels):
         raise HarnessError('C19 case left child processes behind: %r' % (left,))
 
 
+_ARITY = {'join': 3, 'poll': 2, 'alive': 2, 'active': 2, 'sleep': 2,
+          'start2': 2, 'release': 2, 'await': 2, 'spin': 2}
+
+
+def _well_formed(case):
+    """ddmin drops elements of every list, also inside a step or an exit
+    path; such cases are not in the domain"""
+    if not case['children']:
+        return False
+    for ch in case['children']:
+        ex = ch['exit']
+        if len(ex) != 2 or ex[0] not in ('return', 'raise', 'exit', 'sig',
+                                         'ext'):
+            return False
+        if ex[0] == 'raise' and ex[1] not in T._RAISABLE:
+            return False
+        if ex[0] in ('exit', 'sig', 'ext') and type(ex[1]) is not int:
+            return False
+    for step in case.get('pre', []) + case['script']:
+        if not step or _ARITY.get(step[0]) != len(step):
+            return False
+        if type(step[1]) is not int:
+            return False
+    return True
+
+
 def execute(case):
     import billiard
     from billiard.connection import Pipe
 
     method = case['method']
+    if not _well_formed(case):        # only the shrinker produces these
+        return ok(False, ['malformed'])
     stray = _my_children()
     if stray:
         raise HarnessError('children alive before the case: %r' % (stray,))
@@ -544,7 +596,7 @@ def _run(case, method, Proc, active, Pipe, kids, conns, timers, labels, flags):
 
     # ---- the script --------------------------------------------------------
     n = len(kids)
-    for step in case['script']:
+    for step in case.get('pre', []) + case['script']:
         op = step[0]
         if op == 'join':
             join(step[1] % n, step[2])
@@ -601,16 +653,62 @@ def _for(method):
 
 
 PARTS = {'fork': _for('fork'), 'spawn': _for('spawn'),
-         'forkserver': _for('forkserver')}
+         'forkserver': _for('forkserver'), 'enum': execute}
+
+
+def _one(method, exit_path):
+    """the fixed scenario of part enum: poll and a timed join while the child
+    is blocked, poll after its end and before the join, join"""
+    return {'method': method, 'default_ctx': False,
+            'children': [{'exit': list(exit_path), 'delay_ms': 0,
+                          'foreign': False}],
+            'pre': [['poll', 0], ['join', 0, 0.05], ['alive', 0]],
+            'script': [], 'finale': 'poll'}
+
+
+def enum_cases(thorough):
+    """every fatal signal (self-inflicted) and the sys.exit codes, one child
+    each: quick = fork x all signals + boundary codes; thorough = all three
+    methods x all signals, fork x every code 0..255, boundary codes for the
+    other two methods"""
+    edge = [0, 1, 2, 126, 127, 128, 129, 254, 255]
+    out = []
+    for m in (('fork', 'spawn', 'forkserver') if thorough else ('fork',)):
+        out.extend(_one(m, ['sig', s]) for s in FATAL)
+        codes = range(256) if (thorough and m == 'fork') else edge
+        out.extend(_one(m, ['exit', n]) for n in codes)
+    return out
 
 
 def run(ctx):
     # (cases per shard, wall cap per shard in s).  The caps only bite when the
     # box is badly oversubscribed (a fork case costs ~0.2 s on a quiet box and
     # >2 s at load 80); a cut part is reported as budget_cut in the evidence.
-    plan = (('fork', ctx.pick(25, 600), ctx.pick(22, 420)),
-            ('spawn', ctx.pick(2, 200), ctx.pick(6, 240)),
-            ('forkserver', ctx.pick(2, 200), ctx.pick(6, 240)))
+    plan = (('fork', ctx.pick(25, 600), ctx.pick(30, 420)),
+            ('spawn', ctx.pick(3, 200), ctx.pick(12, 240)),
+            ('forkserver', ctx.pick(3, 200), ctx.pick(12, 240)))
+    broken = []
+
+    def guarded(fn):
+        # an exception escaping into Hypothesis would be replayed and reported
+        # as "flaky"; keep the traceback and fail the shard as a harness error
+        def run_one(case):
+            if broken:
+                return inconclusive('harness error earlier in this shard')
+            try:
+                return fn(case)
+            except Exception:
+                broken.append('%s\ncase: %r' % (format_exc(), case))
+                return inconclusive('harness error')
+        return run_one
+
+    ctx.enumerate('enum', enum_cases(ctx.tier == 'thorough'),
+                  guarded(PARTS['enum']), time_cap=ctx.pick(15, 300))
+    if broken:
+        raise HarnessError('exception in part enum:\n%s' % broken[0])
     for method, n, cap in plan:
-        ctx.explore(method, cases(method), PARTS[method], n=n,
-                    shrink_budget=25, reexecute_confirm=2, time_cap=cap)
+        ctx.explore(method, cases(method), guarded(PARTS[method]), n=n,
+                    shrink_budget=12, reexecute_confirm=2, time_cap=cap)
+        if broken:
+            raise HarnessError('exception in part %s:\n%s'
+                               % (method, broken[0]))
